@@ -231,9 +231,11 @@ def make_event(director, name, flag=False):
 
 
 class LockProxy:
-  def __init__(self, director, name):
+  def __init__(self, director, name, real=None):
     self.d, self.name = director, name
-    self.real = threading.RLock()
+    # of the kind of lock the code made itself (an RLock or a plain Lock: they differ for the holder's second acquire)
+    # (a fresh one of the same kind, so that nothing is left over from an earlier replay)
+    self.real = threading.Lock() if isinstance(real, type(threading.Lock())) else threading.RLock()
 
   def acquire(self, blocking=True, timeout=-1):
     self.d.before(self.name, "acquire")
@@ -279,7 +281,7 @@ def auto_proxy(director, sc, real_objects):
     if obj is None or not hasattr(obj, attr):
       continue
     if kind == "RLock":
-      setattr(obj, attr, LockProxy(director, mname))
+      setattr(obj, attr, LockProxy(director, mname, getattr(obj, attr)))
     elif kind == "Event":
       setattr(obj, attr, make_event(director, mname, getattr(obj, attr).is_set()))
     elif kind == "attr":
